@@ -18,7 +18,7 @@ for rf in sys.argv[1:]:
                     shutil.copy(md, os.path.join(d, "README.md"))
 man = json.load(open(os.path.join(V, "MANIFEST.json")))
 checks = [c["property_id"] for c in man["checks"]]
-ids = sorted(os.listdir(os.path.join(V, "refactors")))
+ids = sorted(d for d in os.listdir(os.path.join(V, "refactors")) if os.path.isdir(os.path.join(V, "refactors", d)))
 only = [a for a in sys.argv[1:]]
 for rid in ids:
     if only and not any(rid.startswith(o) for o in only):
